@@ -169,10 +169,15 @@ macro_rules! slice_spec {
             fn push_via<K: Sink<Self::R>>(k: &mut K, v: &Vec<S::V>, f: &mut Forms) -> K::Out {
                 const NAMES: &[&str] = &[
                     "&[T]", "Vec<T>", "&Vec<T>", "&&Vec<T>", "[T;N]", "&[T;N]", "&&[T;N]",
-                    "ReadSlice(region)", "ReadSlice(borrowed)",
+                    "ReadSlice(region)", "ReadSlice(borrowed)", "Vec<T>(spare capacity)",
                 ];
                 let o: Vec<Own<S>> = v.iter().map(S::owned).collect();
                 match f.pick($label, NAMES) {
+                    9 => {
+                        let mut w: Vec<Own<S>> = Vec::with_capacity(o.len() * 2 + 7);
+                        w.extend(o);
+                        k.put(w)
+                    }
                     0 => k.put(o.as_slice()),
                     1 => k.put(o),
                     2 => k.put(&o),
@@ -1049,9 +1054,15 @@ where
         const NAMES: &[&str] = &[
             "&Vec<T>", "Vec<T>", "&[T]", "[T;N]", "&[T;N]", "PushIter<Vec<T>>",
             "PushIter<slice::Iter>", "ReadColumns(region)", "ReadColumns(borrowed)",
+            "Vec<T>(spare capacity)",
         ];
         let o: Vec<Own<S>> = v.iter().map(S::owned).collect();
         match f.pick("Columns", NAMES) {
+            9 => {
+                let mut w: Vec<Own<S>> = Vec::with_capacity(o.len() * 2 + 7);
+                w.extend(o);
+                k.put(w)
+            }
             0 => k.put(&o),
             1 => k.put(o),
             2 => k.put(o.as_slice()),
